@@ -54,7 +54,9 @@ func (bg *BondgoCheck) Create_Connecting_Processor(rsize int, procid int) (*proc
 	if prog, err := myarch.Assembler([]byte(prog)); err == nil {
 		mymachine.Program = prog
 	} else {
+		// a program that cannot be assembled is an error of the compilation, not a machine with an empty ROM
 		fmt.Println(err)
+		return nil, false
 	}
 
 	return mymachine, true
